@@ -4,6 +4,8 @@ import (
 	"go/ast"
 	"go/token"
 	"go/types"
+
+	"github.com/gopherjs/gopherjs/compiler/astutil"
 )
 
 func EscapingObjects(n ast.Node, info *types.Info) []*types.Var {
@@ -30,7 +32,7 @@ func (v *escapeAnalysis) Visit(node ast.Node) (w ast.Visitor) {
 	switch n := node.(type) {
 	case *ast.UnaryExpr:
 		if n.Op == token.AND {
-			if _, ok := n.X.(*ast.Ident); ok {
+			if _, ok := astutil.RemoveParens(n.X).(*ast.Ident); ok {
 				return &escapingObjectCollector{v}
 			}
 		}
